@@ -28,6 +28,7 @@ class Store;
 ///
 class CountPrintPrimes : public Erat
 {
+  PRIMESIEVE_VERIF_FRIEND
 public:
   CountPrintPrimes(PrimeSieve&);
   NOINLINE void sieve();
